@@ -100,7 +100,8 @@ fn corrupt_cases(o: &mut Out, b: &Built, rng: &mut Rng, thorough: bool) {
             let tys = String::from_utf8_lossy(&chunks[i].ty).to_string();
             // which frame must fail: the frame the chunk belongs to; chunks after the last data chunk only affect finish()
             // (a chunk whose TYPE was flipped is no longer a data chunk of that frame: the error may come anywhere)
-            let frame = if i > last_data || kind == 3 { None } else { Some(fo[i]) };
+            // (an ancillary chunk that sits between two frames is read on the way to the NEXT frame: that is the frame it belongs to)
+            let frame = if i > last_data || kind == 3 { None } else { (i..n).find(|&j| &chunks[j].ty == b"IDAT" || &chunks[j].ty == b"fdAT").map(|j| fo[j]) };
             for (oi, opts) in [Opts::default(), Opts { skip_anc_crc: false, ..Opts::default() }].iter().enumerate() {
                 o.mark(&format!("crc {} {} #{} {} opts={} {}", b.name, tys, i, label, opts.bits(), hex(&bytes)));
                 let s = summarize(&bytes, &[0], *opts, 0);
